@@ -352,6 +352,18 @@ def run(ctx: Ctx) -> int:
         construct="decisions after reclassification",
     )
 
+    # ---------------- C15.h: "the source is not there yet" means the KEY is absent -------------------------------------
+    # apply_parsing_links skips a link whose source lives below a class argument that has not been given; a source that IS
+    # given with the value None (seed: null) is a value like any other and must be propagated
+    apl15 = ctx.func("_link_arguments:ActionLink.apply_parsing_links")
+    skips = [n_ for n_ in walk_local(apl15) if isinstance(n_, ast.If) and any(isinstance(c, ast.Call) and call_leaf(c) == "is_subclass_typehint" for c in ast.walk(n_.test)) and any(isinstance(x, ast.Continue) or (isinstance(x, ast.Assign) and isinstance(x.value, ast.Constant) and x.value.value is True) for x in ast.walk(n_))]
+    ctx.floor("C15.h-unresolved-source", len(skips), 1)
+    for n_ in skips:
+        member = [c for c in ast.walk(n_.test) if isinstance(c, ast.Compare) and len(c.ops) == 1 and isinstance(c.ops[0], ast.NotIn)]
+        none_t = [c for c in ast.walk(n_.test) if isinstance(c, ast.Compare) and len(c.ops) == 1 and isinstance(c.ops[0], (ast.Is, ast.Eq)) and isinstance(c.comparators[0], ast.Constant) and c.comparators[0].value is None]
+        ok = bool(member) and not none_t
+        ctx.oblige("C15.h", ok, n_.test, "a link is skipped for an unresolved source only when the source key is absent" if ok else f"`{ast.unparse(n_.test)[:90]}` skips the link when the source's VALUE is None: `seed: null` next to a linked `data_seed` leaves the target unset or at the user's value - the target no longer equals the function of its sources", fn=apl15)
+
     # ---------------- C15.g ----------------------------------------------------
     # A parse-time link whose target is a source of another link (or the other way round) would be computed from a
     # value that is overwritten afterwards.  The creation check refuses such links - provided its tables hold EVERY
